@@ -34,6 +34,9 @@ OPS_QUICK = ("a", "b", "a.b", "a*", "*", "[!a]", "[ab]*")
 # leading or trailing star combined with the other wildcard kinds (a startswith/endswith shortcut is wrong there)
 OPS_FULL = ("a", "b", "c", "a.b", "x-1", "k=v", "a*", "?b", "[ab]c", "*.b", "a*a", "ab*b", "*", "?", "**",
             "[ab]", "a[b]", "[!a]", "[ab]*", "a?*", "*.[b]", "?*")
+# thorough, three operand occurrences: 15 operands (every wildcard KIND stays; near-duplicates of a kind - "[ab]c",
+# "ab*b", "?", "**", "a[b]", "*.[b]", "?*" - are covered with one and two occurrences only)
+OPS_3 = ("a", "b", "c", "a.b", "x-1", "k=v", "a*", "?b", "*.b", "a*a", "*", "[ab]", "[!a]", "[ab]*", "a?*")
 OPS_4 = ("a", "b", "x-1", "a*")
 
 
@@ -236,6 +239,77 @@ def operands(ast):
     return out
 
 
+# ---- protocol histories (library use of make_tag_expression) ------------------------------------------------------
+PH_TEXTS = ("a and not b", "not (a or b) and c", "a* or c", ["a or b", "not c"], "a")
+PH_TAGSETS = [list(t) for n in range(4) for t in itertools.combinations(("a", "b", "c"), n)]
+
+
+def protocol_history_case(case):
+    """case = tuple of operations: ("use", P) | ("make", text index, P | None), P in {"V1","V2","AUTO","DEFAULT"}.
+    make_tag_expression(text, protocol=P) parses with P when given (DEFAULT is an alias of AUTO_DETECT), else with what
+    the last TagExpressionProtocol.use() selected (initially AUTO_DETECT); an explicit protocol= does not change the
+    process-wide selection. Oracle: every make's outcome equals the same text parsed with the EFFECTIVE protocol in
+    isolation (fresh selection) - in particular an EARLIER explicit-protocol call must not change how a later call
+    without protocol= reads its text."""
+    from behave.tag_expression import make_tag_expression as mk
+    from behave.tag_expression.builder import TagExpressionProtocol as TP
+    byname = {"V1": TP.V1, "V2": TP.V2, "AUTO": TP.AUTO_DETECT, "DEFAULT": TP.DEFAULT}
+
+    def outcome(text, proto):
+        try:
+            e = mk(text, proto)
+            return tuple(bool(e.check(ts)) for ts in PH_TAGSETS)
+        except Exception as ex:     # noqa
+            return "EXC:" + type(ex).__name__
+
+    def isolated(text, proto):
+        TP.use(TP.DEFAULT)
+        return outcome(text, proto)
+    v, obs = [], []
+    try:
+        # references first (each in isolation), then the history itself from a fresh selection
+        refs = {}
+        for op in case:
+            if op[0] == "make":
+                for pn in ("V1", "V2", "AUTO"):
+                    refs[(op[1], pn)] = isolated(PH_TEXTS[op[1]], byname[pn])
+        TP.use(TP.DEFAULT)
+        selected = "AUTO"
+        for k, op in enumerate(case):
+            if op[0] == "use":
+                TP.use(byname[op[1]])
+                selected = "AUTO" if op[1] == "DEFAULT" else op[1]
+            else:
+                eff = selected if op[2] is None else ("AUTO" if op[2] == "DEFAULT" else op[2])
+                got = outcome(PH_TEXTS[op[1]], byname[op[2]] if op[2] else None)
+                obs.append(got)
+                if got != refs[(op[1], eff)]:
+                    v.append(({"subcheck": "protocol-history", "clause": "make-ignores-effective-protocol",
+                               "explicit": str(op[2]), "selected": selected,
+                               "after": "explicit-protocol-call" if any(o[0] == "make" and o[2] for o in case[:k]) else "use-only"},
+                              "history %r: operation #%d gives %r; %r parsed with the effective protocol %s in isolation gives %r"
+                              % (case, k, got, PH_TEXTS[op[1]], eff, refs[(op[1], eff)])))
+                    break
+    finally:
+        TP.use(TP.DEFAULT)
+    return {"v": v, "nt": digest(case), "out": ("ph", tuple(o if isinstance(o, str) else "table" for o in obs)),
+            "dg": tuple(obs)}
+
+
+def protocol_history_cases(tier):
+    uses = [("use", p) for p in ("V1", "V2", "AUTO", "DEFAULT")]
+    ntext = len(PH_TEXTS) if tier != "quick" else 3
+    makes = [("make", t, p) for t in range(ntext) for p in (None, "V1", "V2", "AUTO", "DEFAULT")]
+    ops = uses + makes
+    for a in ops:
+        for b in makes:
+            yield (a, b)
+    for a in uses + [m_ for m_ in makes if m_[2]]:
+        for b in ops:
+            for c in [m_ for m_ in makes if m_[1] == 0 or tier != "quick"]:
+                yield (a, b, c)
+
+
 _CFG = []
 
 
@@ -318,7 +392,7 @@ def run(ctx):
     if ctx.quick:
         plan = [(1, OPS_FULL), (2, OPS_FULL), (3, OPS_QUICK)]
     else:
-        plan = [(1, OPS_FULL), (2, OPS_FULL), (3, OPS_FULL), (4, OPS_4)]
+        plan = [(1, OPS_FULL), (2, OPS_FULL), (3, OPS_3), (4, OPS_4)]
     ctx.bounds = {"operand_occurrences": plan[-1][0], "alphabets": {str(n): list(o) for n, o in plan},
                   "truth_table_rows": 256}
     for n, leaves in plan:
@@ -342,5 +416,7 @@ def run(ctx):
     cfgs = small if not ctx.quick else list(asts(1, ("a", "b*"))) + list(asts(2, ("a", "b")))[::3]
     ctx.sweep(check_config_pair, [(c, tl, True, lo) for c in cfgs for tl in term_lists for lo in (None, "v1")],
               chunk=64, name="config.tags substitution in lists of terms (several --tags options)")
+    ctx.sweep(protocol_history_case, protocol_history_cases(ctx.tier), chunk=128,
+              name="protocol histories: use() / make_tag_expression(text, protocol=explicit or omitted), 2-3 operations")
     ctx.guard(len(ctx.nt) > 1000, "at least 1000 distinct non-trivial expressions")
     ctx.guard(len(ctx.outcomes) > 50, "at least 50 distinct truth tables observed")
